@@ -256,4 +256,228 @@ theorem frame (c : Cfg) (s s' : State) (t : Nat) (L : Label)
 
 end U
 
+-- ==========================================================================================================
+namespace H
+
+/-- bits of `crdp->flags` -/
+def F_RT : Nat := 1
+def F_STOP : Nat := 4
+def F_STOPPED : Nat := 8
+def F_PAUSE : Nat := 16
+def F_PAUSED : Nat := 32
+
+/-- local state of the helper thread of helper `h`: L2's `hpc h`, `batch h`, `cnt h`, the constant `rt h` (the thread's
+local copy `rt`, read once from the flags), and `sub` = position *inside* an L2 pc that spans several source accesses
+(`0` = at its first access):
+
+* `splice`: 0 = at the load of `cbs_head.next` of `_cds_wfcq_empty`, 1 = at its load of `cbs_tail.p`, 2 = at the exchange
+  of `cbs_head.next`, 3 = at the load of `cbs_tail.p` after an exchange that returned NULL, 4 = at the exchange of
+  `cbs_tail.p` (L2's `hSplice`), 9 = after the poll loop of the PAUSE handshake, at `uatomic_and(&flags, ~PAUSED)`;
+* `emptychk`: 0 / 1 = the two loads of `_cds_wfcq_empty`;
+* `waitFx`: 0 = at the `futex` call, 1 = at the read of `errno` after it failed. -/
+structure LState where
+  pc : HPc
+  sub : Nat
+  batch : List Nat
+  cnt : Nat
+  rt : Bool
+  deriving DecidableEq, Repr
+
+inductive LLabel
+  | ldFlags (f : Nat)               -- load of `crdp->flags` saw `f`
+  | decFutex                        -- `uatomic_dec(&crdp->futex)`
+  | stFutex0                        -- store `crdp->futex := 0`
+  | orFlags (m : Nat)               -- `uatomic_or(&crdp->flags, m)`
+  | andFlags (m : Nat)              -- `uatomic_and(&crdp->flags, m)`
+  | ldHead (nonnull : Bool)         -- load of `crdp->cbs_head.next` saw a non-NULL value?
+  | ldTail (isHead : Bool)          -- load of `crdp->cbs_tail.p` saw `&crdp->cbs_head`?
+  | xchgHead (first : Option Nat)   -- `xchg(&crdp->cbs_head.next, NULL)` returned NULL / the node of callback `first`
+  | splice (b : List Nat) (last : Nat)
+                                    -- `xchg(&crdp->cbs_tail.p, &crdp->cbs_head)` returned the node of callback `last`;
+                                    -- `b` = the batch taken (the queue content: not in the event, see `CallRcuHelper`)
+  | gp                              -- `synchronize_rcu()` (call and return)
+  | run (id : Nat)                  -- `rhp->func(rhp)` for callback `id` (call and return)
+  | sub (n : Int)                   -- `uatomic_sub(&crdp->qlen, n)`
+  | ldFutex (v : Int)               -- load of `crdp->futex`
+  | futexWait (r : Int)             -- `futex(&crdp->futex, FUTEX_WAIT, -1)` returned `r`
+  | errno (e : Int)
+  | poll                            -- `poll(NULL, 0, _)`
+  | bad
+  deriving DecidableEq, Repr
+
+def bit (f m : Nat) : Bool := f &&& m != 0
+
+def lstep (ls : LState) (l : LLabel) : Option LState :=
+  match ls.pc with
+  | .start =>
+    match l with
+    | .ldFlags f => some { ls with pc := if bit f F_RT then .top else .dec0, rt := bit f F_RT, sub := 0 }
+    | _ => none
+  | .dec0 =>
+    match l with
+    | .decFutex => some { ls with pc := .top, sub := 0 }
+    | _ => none
+  | .top =>
+    match l with
+    | .ldFlags f => some { ls with pc := if bit f F_PAUSE then .pausing else .splice, sub := 0 }
+    | _ => none
+  | .pausing =>
+    match l with
+    | .orFlags m => if m = F_PAUSED then some { ls with pc := .paused, sub := 0 } else none
+    | _ => none
+  | .paused =>
+    match l with
+    | .ldFlags f => if bit f F_PAUSE then some ls else some { ls with pc := .splice, sub := 9 }
+    | .poll => some ls
+    | _ => none
+  | .splice =>
+    match l with
+    | .andFlags _ => if ls.sub = 9 then some { ls with sub := 0 } else none
+    | .ldHead nn => if ls.sub = 0 then some { ls with sub := if nn then 2 else 1 } else none
+    | .ldTail ih =>
+      if ls.sub = 1 ∨ ls.sub = 3 then
+        (if ih then some { ls with pc := .stopchk, sub := 0 } else some { ls with sub := 2 })
+      else none
+    | .xchgHead first =>
+      if ls.sub = 2 then
+        (match first with
+         | none => some { ls with sub := 3 }
+         | some _ => some { ls with sub := 4 })
+      else none
+    | .splice b _ =>
+      if ls.sub = 4 ∧ b ≠ [] then some { ls with pc := .gp, sub := 0, batch := b, cnt := 0 } else none
+    | _ => none
+  | .gp =>
+    match l with
+    | .gp => some { ls with pc := .inv, sub := 0 }
+    | _ => none
+  | .inv =>
+    match l with
+    | .run id => if ls.batch.head? = some id then some { ls with batch := ls.batch.tail, cnt := ls.cnt + 1 } else none
+    | .sub n => if ls.batch = [] ∧ n = ls.cnt then some { ls with pc := .stopchk, sub := 0 } else none
+    | _ => none
+  | .stopchk =>
+    match l with
+    | .ldFlags f =>
+      some { ls with pc := if bit f F_STOP then (if ls.rt then .exitOr else .exitSt)
+                           else (if ls.rt then .pollN else .emptychk), sub := 0 }
+    | _ => none
+  | .emptychk =>
+    match l with
+    | .ldHead nn => if ls.sub = 0 then (if nn then some { ls with pc := .pollN, sub := 0 } else some { ls with sub := 1 }) else none
+    | .ldTail ih => if ls.sub = 1 then some { ls with pc := if ih then .waitLd else .pollN, sub := 0 } else none
+    | _ => none
+  | .waitLd =>
+    match l with
+    | .ldFutex v => some { ls with pc := if v = -1 then .waitFx else .pollW, sub := 0 }
+    | _ => none
+  | .waitFx =>
+    match l with
+    | .futexWait r => if ls.sub = 0 then (if r = 0 then some { ls with pc := .waitLd, sub := 0 } else some { ls with sub := 1 }) else none
+    | .errno e =>
+      if ls.sub = 1 then
+        (if e = 11 then some { ls with pc := .pollW, sub := 0 }
+         else if e = 4 then some { ls with pc := .waitLd, sub := 0 } else none)
+      else none
+    | _ => none
+  | .pollW =>
+    match l with
+    | .poll => some { ls with pc := .dec, sub := 0 }
+    | _ => none
+  | .dec =>
+    match l with
+    | .decFutex => some { ls with pc := .top, sub := 0 }
+    | _ => none
+  | .pollN =>
+    match l with
+    | .poll => some { ls with pc := .top, sub := 0 }
+    | _ => none
+  | .exitSt =>
+    match l with
+    | .stFutex0 => some { ls with pc := .exitOr, sub := 0 }
+    | _ => none
+  | .exitOr =>
+    match l with
+    | .orFlags m => if m = F_STOPPED then some { ls with pc := .dead, sub := 0 } else none
+    | _ => none
+  | _ => none
+
+def lrun : LState → List LLabel → Option LState
+  | ls, [] => some ls
+  | ls, l :: r => match lstep ls l with
+    | some ls' => lrun ls' r
+    | none => none
+
+theorem lrun_append (ls : LState) (a b : List LLabel) :
+    lrun ls (a ++ b) = (lrun ls a).bind (fun m => lrun m b) := by
+  induction a generalizing ls with
+  | nil => rfl
+  | cons l r ih => simp only [List.cons_append, lrun]; cases lstep ls l <;> simp [ih]
+
+/-- the local state agrees with the L2 state on the fields helper `h` owns -/
+def Agree (ls : LState) (s : State) (h : Nat) : Prop :=
+  ls.pc = s.hpc h ∧ ls.batch = s.batch h ∧ ls.cnt = s.cnt h ∧ ls.rt = s.rt h
+
+/-- projection of the L2 state to helper `h` (at the first access of its pc) -/
+def proj (s : State) (h : Nat) : LState := { pc := s.hpc h, sub := 0, batch := s.batch h, cnt := s.cnt h, rt := s.rt h }
+
+theorem agree_proj (s : State) (h : Nat) : Agree (proj s h) s h := ⟨rfl, rfl, rfl, rfl⟩
+
+/-- the L2 labels of a local step taken in local state `ls`: `[]` = the access is internal to an L2 pc (stutter).
+`run id` = `hRunBegin h id` then `hRunEnd h` (the callback's own accesses are not events of this function: `ext`);
+`sub` = `hInvDone h` (the loop's exit test, no access) then `hSub h`;
+`futexWait 0` is stated as L2's `hWaitFx h .spurious`; the other L2 behaviour with the same source event is
+`hWaitFx h .sleep` followed by a waker's `wake` (or the environment's `hSpurious h`), which ends at the same pc `waitLd`. -/
+def toL2 (h : Nat) (ls : LState) : LLabel → List Label
+  | .ldFlags f =>
+    match ls.pc with
+    | .start => [.hStart h]
+    | .top => [.hTop h]
+    | .paused => if bit f F_PAUSE then [] else [.hUnpause h]
+    | .stopchk => [.hStopChk h]
+    | _ => []
+  | .decFutex => (match ls.pc with | .dec0 => [.hDec0 h] | _ => [.hDec h])
+  | .stFutex0 => [.hExitSt h]
+  | .orFlags _ => (match ls.pc with | .pausing => [.hPause h] | _ => [.hExitOr h])
+  | .andFlags _ => []
+  | .ldHead nn => (match ls.pc with | .emptychk => if nn then [.hEmptyChk h] else [] | _ => [])
+  | .ldTail ih => (match ls.pc with | .emptychk => [.hEmptyChk h] | _ => if ih then [.hSplice h] else [])
+  | .xchgHead _ => []
+  | .splice _ _ => [.hSplice h]
+  | .gp => [.hGpEnd h]
+  | .run id => [.hRunBegin h id, .hRunEnd h]
+  | .sub _ => [.hInvDone h, .hSub h]
+  | .ldFutex _ => [.hWaitLd h]
+  | .futexWait r => if r = 0 then [.hWaitFx h .spurious] else []
+  | .errno e => if e = 11 then [.hWaitFx h .eagain] else [.hWaitFx h .eintr]
+  | .poll => (match ls.pc with | .pollW => [.hPollW h] | .pollN => [.hPollN h] | _ => [])
+  | .bad => []
+
+/-- the values a label observes, as functions of the global state -/
+def Obs (s : State) (h : Nat) (ls : LState) : LLabel → Prop
+  | .ldFlags f =>
+    match ls.pc with
+    | .start => bit f F_RT = s.rt h
+    | .top => bit f F_PAUSE = s.pause h
+    | .paused => bit f F_PAUSE = s.pause h
+    | .stopchk => bit f F_STOP = s.stop h
+    | _ => True
+  | .ldHead nn => nn = true → s.queue h ≠ []
+  | .ldTail ih => ih = decide (s.queue h = [])
+  | .xchgHead first => ∀ id, first = some id → (s.queue h).head? = some id
+  | .splice b last => b = s.queue h ∧ b.getLast? = some last
+  | .sub n => n = s.cnt h
+  | .ldFutex v => v = s.futex h
+  | _ => True
+
+/-- the part of the L2 guards that is not a condition on the helper's own fields -/
+def Guard (c : Cfg) (s : State) (h : Nat) (ls : LState) : LLabel → Prop
+  | .gp => gpMayEnd c s (s.hgp h)
+  | .run _ => s.tpc (c.n + h) = .idle
+  | .errno e => e = 11 → s.futex h ≠ -1
+  | .bad => False
+  | _ => True
+
+end H
+
 end UrcuVerif.Src.CallRcuL
